@@ -406,6 +406,7 @@ func (i *Iter) MarshalJSON() ([]byte, error) {
 // Output will be appended to the destination.
 func (i *Iter) MarshalJSONBuffer(dst []byte) ([]byte, error) {
 	var tmpBuf []byte
+	start := len(dst)
 
 	// Pre-allocate for 100 deep.
 	var stackTmp [100]uint8
@@ -461,6 +462,10 @@ writeloop:
 			if isOpenRoot {
 				// Always move into root.
 				i.addNext = 0
+			} else if len(dst) > start {
+				// Closing root right after the value we were positioned on
+				// (iterators handed out by ParsedJson.ForEach): we are done.
+				break writeloop
 			}
 			i.AdvanceInto()
 			stack = append(stack, stackRoot)
